@@ -132,6 +132,13 @@ class Events:
                 data = c[2][1] if c is not None and len(c[2]) > 1 else None
                 recv = c[2][0] if c is not None else None
                 return ('WRITE', 'await_all', data, recv)
+            for fut, meth in (("futures_util::io::Write<", "write"), ("futures_util::io::WriteVectored<", "write_vectored")):
+                if s.startswith(fut) or (sel and fut in s):
+                    # a single write whose result is a byte count (possibly 0): same obligations as poll_write
+                    c = self._future_call(fe, "futures_util::AsyncWriteExt::" + meth)
+                    data = c[2][1] if c is not None and len(c[2]) > 1 else None
+                    recv = c[2][0] if c is not None else None
+                    return ('WRITE', 'await_count', data, recv)
             if aw.get("dyn"):
                 return ('HANDLER', 'await')
             if g.coroutine_of(aw):
